@@ -57,25 +57,56 @@ class AutoReset(Unit):
     target = RL + "::AutoResetWrapper.step"
     props = ("C19",)
 
+    def configs(self):
+        yield "fixed_init", dict(fixed=True)
+        yield "fresh init each episode (no preset params)", dict(fixed=False, params=None)
+        yield "fresh init each episode (rng of a node without preset params)", dict(fixed=False, params={"n": 0})
+
     def run(self, ctx):
-        ex = ctx.ex
+        ex, cfg = ctx.ex, ctx.cfg
         init_gs = mk_gs("init", {})
         init = Rec("InitialState", dict(graph_state=init_gs, obs=z3.Const("init.obs", Leaf), info={"k": z3.Const("init.info", Leaf)}), module=RL, frozen=True)
-        gs = mk_gs("gs", {"init": init, "other": z3.Const("other_aux", Leaf)})
+        gs = mk_gs("gs", {"init": init, "other": z3.Const("other_aux", Leaf)} if cfg["fixed"] else {"other": z3.Const("other_aux", Leaf)})
+        if not cfg["fixed"]:
+            gs.f["rng"]["m"] = z3.Const("gs.rng.m", Leaf)           # two nodes: n (possibly with preset params) and m
+            init_gs.f["rng"]["m"] = z3.Const("init.rng.m", Leaf)
         obs, info = z3.Const("obs", Leaf), {"k": z3.Const("info", Leaf)}
         reward, term, trunc = z3.Real("reward"), z3.Bool("terminated"), z3.Bool("truncated")
         env, calls = inner_env((gs, obs, reward, term, trunc, info))
-        w = Rec("AutoResetWrapper", dict(_env=env, fixed_init=True), module=RL)
-        gin, a = mk_gs("in", {"init": init}), z3.Const("action", Leaf)
+        resets = []
+
+        def reset(ex_, rng=None):
+            resets.append(rng)
+            return init_gs, init.f["obs"], init.f["info"]
+        env.f["reset"] = reset
+        env.f["params"] = cfg.get("params")
+        w = Rec("AutoResetWrapper", dict(_env=env, fixed_init=cfg["fixed"]), module=RL)
+        gin, a = mk_gs("in", {"init": init} if cfg["fixed"] else {}), z3.Const("action", Leaf)
         ret = ctx.call(self_obj=w, args=[gin, a])
         done = z3.Or(term, trunc)
         ctx.ensure("the wrapped environment is stepped exactly once with the given state and action", z3.BoolVal(len(calls) == 1 and calls[0][0] is gin) if calls else z3.BoolVal(False))
         ctx.ensure("C19 reward and done flags always describe the step just taken (the finished episode)", z3.And(toz(ret[2]) == reward, toz(ret[3]) == term, toz(ret[4]) == trunc))
         ng, nobs, ninfo = ret[0], ret[1], ret[5]
-        ctx.ensure("C19 not done: state, observation and info pass through unchanged", z3.Implies(z3.Not(done), z3.And(z3.BoolVal(True), toz(aw.same(ng, gs)), toz(aw.same(nobs, obs)), toz(aw.same(ninfo, info)))))
-        ctx.ensure("C19 done: the stored initial state (with the current rng and aux), initial observation and initial info are returned",
+        if cfg["fixed"]:
+            ctx.ensure("C19 not done: state, observation and info pass through unchanged", z3.Implies(z3.Not(done), z3.And(z3.BoolVal(True), toz(aw.same(ng, gs)), toz(aw.same(nobs, obs)), toz(aw.same(ninfo, info)))))
+            ctx.ensure("C19 done: the stored initial state (with the current rng and aux), initial observation and initial info are returned",
+                       z3.Implies(done, z3.And(toz(aw.same(nobs, init.f["obs"])), toz(aw.same(ninfo, init.f["info"])), toz(aw.same(ng.f["state"], init_gs.f["state"])), toz(aw.same(ng.f["step"], init_gs.f["step"])),
+                                               toz(aw.same(ng.f["rng"], gs.f["rng"])), toz(aw.same(ng.f["aux"], gs.f["aux"])))))
+            ctx.ensure("fixed_init never resets the wrapped environment", z3.BoolVal(not resets))
+            return
+        # freshly drawn initial state: the key comes from splitting the rng of one node; that node's rng is replaced by the other half (so the next episode draws a different one)
+        name = "m" if cfg.get("params") else "n"
+        Keys = ex.lib.KeysType
+        rk = resets[0] if resets else None
+        ctx.ensure("C19 fresh init: the wrapped environment is reset exactly once, with a key split off the rng of a node (one without preset params if there is one)", z3.BoolVal(len(resets) == 1))
+        new_rng = ng.f["rng"] if isinstance(ng, Rec) else {}
+        split_ok = rk is not None and new_rng.get(name) is not None and not z3.eq(toz(new_rng[name]), toz(gs.f["rng"][name])) and not z3.eq(toz(new_rng[name]), toz(rk))
+        ctx.ensure("C19 fresh init, not done: state / observation / info pass through, except that the split node's rng has advanced (the other half of the split, never the reset key itself)",
+                   z3.Implies(z3.Not(done), z3.And(z3.BoolVal(split_ok), toz(aw.same(ng.f["state"], gs.f["state"])), toz(aw.same(ng.f["step"], gs.f["step"])), toz(aw.same(ng.f["aux"], gs.f["aux"])),
+                                                   *[toz(aw.same(ng.f["rng"][k], gs.f["rng"][k])) for k in gs.f["rng"] if k != name], toz(aw.same(nobs, obs)), toz(aw.same(ninfo, info)))) if isinstance(ng, Rec) else z3.BoolVal(False))
+        ctx.ensure("C19 fresh init, done: the freshly drawn initial state (with the current aux), its observation and info are returned",
                    z3.Implies(done, z3.And(toz(aw.same(nobs, init.f["obs"])), toz(aw.same(ninfo, init.f["info"])), toz(aw.same(ng.f["state"], init_gs.f["state"])), toz(aw.same(ng.f["step"], init_gs.f["step"])),
-                                           toz(aw.same(ng.f["rng"], gs.f["rng"])), toz(aw.same(ng.f["aux"], gs.f["aux"])))))
+                                           toz(aw.same(ng.f["rng"], init_gs.f["rng"])), toz(aw.same(ng.f["aux"], gs.f["aux"])))) if isinstance(ng, Rec) else z3.BoolVal(False))
 
 
 class LogStep(Unit):
@@ -241,10 +272,181 @@ class RunningMoments(Unit):
                        z3.And(z3.BoolVal(isinstance(nrv, Arr)), z3.ForAll([j], z3.Implies(z3.And(0 <= j, j < n), z3.Select(nrv.a, j) == z3.Select(rv.a, j) * gamma * z3.If(d(j), 0, 1) + z3.Select(reward.a, j)))) if isinstance(nrv, Arr) else z3.BoolVal(False))
 
 
+def inner_reset_env(result, **extra):
+    calls = []
+
+    def reset(ex, rng=None):
+        calls.append(rng)
+        return result
+    return Rec("Env", dict(reset=reset, params=None, **extra), module=None), calls
+
+
+class EnvInitReset(Unit):
+    """Environment.init / reset: the initial graph state is graph.init with the environment's settings (first partition run by graph.reset unless only_init), and reset hands back that state with the
+    observation / info computed from its post-step update"""
+    name = "Environment.init / reset"
+    target = RL + "::Environment.reset"
+    props = ("C19",)
+
+    def configs(self):
+        yield "only_init", dict(only_init=True)
+        yield "first partition run", dict(only_init=False)
+
+    def run(self, ctx):
+        ex, cfg = ctx.ex, ctx.cfg
+        U = lambda name, *sorts: z3.Function(name, *sorts)
+        POST, INFO, OBS, GRESET = U("post_step", Leaf, Leaf), U("info", Leaf, Leaf), U("obs", Leaf, Leaf), U("graph_reset", Leaf, Leaf)
+        inits, resets = [], []
+
+        def g_init(ex_, rng=None, **kw):
+            inits.append((rng, kw))
+            return z3.Const("gs_init", Leaf)
+
+        def g_reset(ex_, gs):
+            resets.append(gs)
+            return GRESET(gs), z3.Const("ss", Leaf)
+        graph = Rec("Graph", dict(init=g_init, reset=g_reset), module=None)
+        params, order = {"n": z3.Const("p", Leaf)}, ("a", "b")
+        seen_action = []
+
+        def post(ex_, gs, action="missing"):
+            seen_action.append(action)
+            return POST(gs)
+        env = Rec("Environment", dict(graph=graph, params=params, only_init=cfg["only_init"], starting_eps=z3.Int("starting_eps"), randomize_eps=z3.Bool("randomize_eps"), order=order,
+                                      update_graph_state_post_step=post, get_info=lambda ex_, gs, a=None: INFO(gs), get_observation=lambda ex_, gs: OBS(gs)), module=RL)
+        rng = z3.Const("rng", Leaf)
+        ret = ctx.call(self_obj=env, args=[rng])
+        ok = isinstance(ret, tuple) and len(ret) == 3
+        ctx.ensure("returns (graph state, observation, info)", z3.BoolVal(ok))
+        if not ok:
+            return
+        kw = inits[0][1] if inits else {}
+        ctx.ensure("C19 the graph is initialised exactly once, with the caller's rng and the environment's params / starting episode / randomisation / order",
+                   z3.And(z3.BoolVal(len(inits) == 1 and inits[0][0] is rng and kw.get("params") is params and kw.get("order") is order),
+                          toz(kw.get("starting_eps", -1)) == z3.Int("starting_eps"), toz(kw.get("randomize_eps", False)) == z3.Bool("randomize_eps")) if inits else z3.BoolVal(False))
+        if cfg["only_init"]:
+            ctx.ensure("only_init: starting step 1 and the first partition is NOT run", z3.BoolVal(kw.get("starting_step") == 1 and not resets))
+            gs0 = z3.Const("gs_init", Leaf)
+        else:
+            ctx.ensure("otherwise: starting step 0 and the first partition is run once by graph.reset", z3.BoolVal(kw.get("starting_step") == 0 and len(resets) == 1))
+            gs0 = GRESET(z3.Const("gs_init", Leaf))
+        ctx.ensure("C19 reset returns that initial graph state; observation and info are those of its post-step update (called with action None)",
+                   z3.And(toz(ret[0]) == gs0, toz(ret[1]) == OBS(POST(gs0)), toz(ret[2]) == INFO(POST(gs0)), z3.BoolVal(seen_action == [None])))
+
+
+class WrapperResets(Unit):
+    """base cases of the per-step invariants: what each wrapper's reset puts into aux (and that everything else of the inner reset passes through)"""
+    props = ("C19",)
+
+    def __init__(self, which):
+        self.which = which
+        self.name = f"{which}.reset"
+        self.target = f"{RL}::{which}.reset"
+
+    def configs(self):
+        if self.which == "AutoResetWrapper":
+            yield "fixed_init", dict(fixed=True)
+            yield "fresh init each episode", dict(fixed=False)
+        else:
+            yield "default", dict()
+
+    def run(self, ctx):
+        ex, cfg = ctx.ex, ctx.cfg
+        n = z3.Int("batch")
+        ctx.require(n >= 1)
+        gs = mk_gs("gs", {"other": z3.Const("other_aux", Leaf)})
+        info = {"k": z3.Const("info", Leaf)}
+        if self.which in ("NormalizeVecObservationWrapper", "NormalizeVecReward"):
+            obs = Arr.fresh("obs", REAL, n)
+        else:
+            obs = z3.Const("obs", Leaf)
+        low, high = z3.Real("low"), z3.Real("high")
+        space = Rec("Box", dict(low=low, high=high), module=None, frozen=True)
+        env, calls = inner_reset_env((gs, obs, info), action_space=lambda ex_, g: space)
+        fields = dict(_env=env)
+        if self.which == "AutoResetWrapper":
+            fields["fixed_init"] = cfg["fixed"]
+        if self.which == "SquashActionWrapper":
+            fields["squash"] = z3.Bool("squash")
+        if self.which == "NormalizeVecObservationWrapper":
+            fields["clip_obs"] = z3.Real("clip")
+        if self.which == "NormalizeVecReward":
+            fields.update(gamma=z3.Real("gamma"), clip_reward=z3.Real("clip"))
+        w = Rec(self.which, fields, module=RL)
+        rng = z3.Const("rng", Leaf)
+        bm, bv = z3.Real("batch_mean"), z3.Real("batch_var")
+        ctx.require(bv >= 0)            # a (population) variance
+        jnp = ex.lib.ns["jax.numpy"]
+        saved = {k: jnp.entries.get(k) for k in ("mean", "var", "zeros_like", "ones_like")}
+        jnp.entries["mean"] = lambda ex_, x, axis=0: bm
+        jnp.entries["var"] = lambda ex_, x, axis=0: bv
+        jnp.entries["zeros_like"] = lambda ex_, x: z3.RealVal(0)
+        jnp.entries["ones_like"] = lambda ex_, x: z3.RealVal(1)
+        try:
+            ret = ctx.call(self_obj=w, args=[rng])
+        finally:
+            for k, v in saved.items():
+                if v is not None:
+                    jnp.entries[k] = v
+                else:
+                    jnp.entries.pop(k, None)
+        ok = isinstance(ret, tuple) and len(ret) == 3 and isinstance(ret[0], Rec)
+        ctx.ensure("returns (graph state, observation, info)", z3.BoolVal(ok))
+        if not ok:
+            return
+        ctx.ensure("the wrapped environment is reset exactly once with the caller's rng", z3.BoolVal(len(calls) == 1 and calls[0] is rng))
+        g = ret[0]
+        ctx.ensure("everything of the inner state but aux passes through; other aux entries are kept; info passes through",
+                   z3.And(*[toz(aw.same(g.f[k], gs.f[k])) for k in gs.f if k != "aux"], z3.BoolVal("other" in g.f["aux"] and g.f["aux"]["other"] is gs.f["aux"]["other"]), toz(aw.same(ret[2], info))))
+        a = g.f["aux"]
+        if self.which == "AutoResetWrapper":
+            if cfg["fixed"]:
+                i = a.get("init")
+                okk = isinstance(i, Rec) and i.cls == "InitialState"
+                ctx.ensure("C19 fixed_init: the initial state, observation and info of THIS reset are stored under aux['init'] (what the step after an episode end returns)",
+                           z3.And(toz(aw.same(i.f["graph_state"], gs)), toz(aw.same(i.f["obs"], obs)), toz(aw.same(i.f["info"], info))) if okk else z3.BoolVal(False))
+            else:
+                ctx.ensure("C19 no fixed_init: nothing is stored, the inner state is returned as is", z3.BoolVal("init" not in a and set(a) == {"other"}))
+            ctx.ensure("observation passes through", toz(aw.same(ret[1], obs)))
+        elif self.which == "LogWrapper":
+            l = a.get("log")
+            okk = isinstance(l, Rec) and l.cls == "LogState"
+            ctx.ensure("C19 the running sum / step counters and the last reported values start at zero (base case of the per-step accounting invariant)",
+                       z3.And(*[toz(l.f[k]) == 0 for k in ("episode_returns", "episode_lengths", "returned_episode_returns", "returned_episode_lengths", "timestep")]) if okk else z3.BoolVal(False))
+            ctx.ensure("observation passes through", toz(aw.same(ret[1], obs)))
+        elif self.which == "SquashActionWrapper":
+            sc = a.get("act_scaling")
+            okk = isinstance(sc, Rec) and sc.cls == "SquashState"
+            ctx.ensure("C19 the action scaling in aux carries the WRAPPED environment's action bounds and the wrapper's squash flag",
+                       z3.And(toz(sc.f["low"]) == low, toz(sc.f["high"]) == high, toz(sc.f["squash"]) == z3.Bool("squash")) if okk else z3.BoolVal(False))
+            ctx.ensure("observation passes through", toz(aw.same(ret[1], obs)))
+        elif self.which == "NormalizeVecObservationWrapper":
+            ns = a.get("norm_obs")
+            okk = isinstance(ns, Rec) and ns.cls == "NormalizeVec"
+            N = z3.ToReal(n)
+            c0 = z3.RealVal("0.0001")
+            tot = c0 + N
+            want_mean = N * bm / tot
+            want_second = (c0 * 1 + N * (bv + bm * bm)) / tot
+            ctx.ensure("C19 after reset the statistics are those of the first batch merged with the documented prior (mean 0, var 1, weight 1e-4): count, mean, variance",
+                       z3.And(toz(ns.f["count"]) == tot, toz(ns.f["mean"]) == want_mean, toz(ns.f["var"]) == want_second - want_mean * want_mean, toz(ns.f["clip"]) == z3.Real("clip")) if okk else z3.BoolVal(False),
+                       hyps=lambda h: not smt._contains_quant(h))
+        else:
+            ns = a.get("norm_reward")
+            okk = isinstance(ns, Rec) and ns.cls == "NormalizeVec"
+            rv = ns.f["return_val"] if okk else None
+            j = z3.Int("j!rr")
+            ctx.ensure("C19 the return statistics start from the documented prior (mean 0, var 1, weight 1e-4) and one zero return accumulator per environment",
+                       z3.And(toz(ns.f["count"]) == z3.RealVal("0.0001"), toz(ns.f["mean"]) == 0, toz(ns.f["var"]) == 1, toz(ns.f["clip"]) == z3.Real("clip"), z3.BoolVal(isinstance(rv, Arr)),
+                              rv.n == n, z3.ForAll([j], z3.Implies(z3.And(0 <= j, j < n), z3.Select(rv.a, j) == 0))) if okk and isinstance(rv, Arr) else z3.BoolVal(False))
+            ctx.ensure("observation passes through", toz(aw.same(ret[1], obs)))
+
+
 RunningMoments.replay = lambda self, label, clause, probes, model: ({"kind": "pure", "which": "reward_norm", "probes": probes} if self.which == "NormalizeVecReward" else None)
 
 
-UNITS = [EnvStep(), AutoReset(), LogStep(), Squash(), SquashActionStep(), ClipAction(), RunningMoments("NormalizeVecObservationWrapper"), RunningMoments("NormalizeVecReward")]
+UNITS = [EnvStep(), AutoReset(), LogStep(), Squash(), SquashActionStep(), ClipAction(), RunningMoments("NormalizeVecObservationWrapper"), RunningMoments("NormalizeVecReward"),
+         EnvInitReset()] + [WrapperResets(w) for w in ("AutoResetWrapper", "LogWrapper", "SquashActionWrapper", "NormalizeVecObservationWrapper", "NormalizeVecReward")]
 EXTRA = dict(assumptions=["tanh / arctanh axioms (range, monotone, mutual inverses); floats as reals",
                           "jnp.mean / jnp.var of a batch are its mean and (population) variance: the batch statistics are symbols in the moment-merge identity",
                           "the running statistics start from a pseudo-observation of weight 1e-4 (mean 0, var 1): 'everything seen so far' includes that prior (DESIGN 6/C19)",
